@@ -500,6 +500,8 @@ pub fn c15(ctx: &Ctx, rep: &mut Report) {
 enum Sh {
     /// tracer number k returning a value of the named kind
     T(usize, Kind),
+    /// boolean literal (no marker)
+    Lit(bool),
     Bin(&'static str, Box<Sh>, Box<Sh>),
     Call(Vec<Sh>),
     Method(Box<Sh>, Vec<Sh>),
@@ -546,7 +548,7 @@ impl<'r> ShGen<'r> {
         }
         let d = depth - 1;
         match k {
-            Kind::Int | Kind::Zero | Kind::Two => match self.rng.below(7) {
+            Kind::Int | Kind::Zero | Kind::Two => match self.rng.below(8) {
                 0 if k == Kind::Int => {
                     let l = self.operand(Kind::Int, d);
                     let r = self.operand(Kind::Int, d);
@@ -569,6 +571,19 @@ impl<'r> ShGen<'r> {
                 }
                 3 => Sh::Let(Box::new(self.operand(k, d))),
                 4 => Sh::Assign(Box::new(self.operand(k, d))),
+                6 if k == Kind::Int => match self.rng.below(3) {
+                    0 => {
+                        let a = self.operand(Kind::Arr, d);
+                        let i = self.operand(Kind::Zero, d);
+                        Sh::IndexGet(Box::new(a), Box::new(i))
+                    }
+                    1 => Sh::FieldGet(Box::new(self.operand(Kind::Obj, d))),
+                    _ => {
+                        let o = self.operand(Kind::Obj, d);
+                        let a = self.operand(Kind::Int, d);
+                        Sh::Method(Box::new(o), vec![a])
+                    }
+                },
                 5 => {
                     let n = self.rng.below(3);
                     let mut v = Vec::new();
@@ -605,9 +620,19 @@ impl<'r> ShGen<'r> {
                 Sh::Bin(op, Box::new(l), Box::new(r))
             }
             1 => {
-                let op = *self.rng.pick(&["&", "|", "==", "!="]);
-                let l = self.operand(Kind::True, d);
-                let r = self.operand(Kind::False, d);
+                let op = *self.rng.pick(&["&", "|", "&", "|", "==", "!="]);
+                let l = match self.rng.below(4) {
+                    0 => Sh::Lit(self.rng.coin()),
+                    1 => {
+                        // a comparison of two tracers: true for "<", false for ">" (ids increase)
+                        let a = self.t(Kind::Int);
+                        let b = self.t(Kind::Int);
+                        Sh::Bin(if self.rng.coin() { "<" } else { ">" }, Box::new(a), Box::new(b))
+                    }
+                    2 => self.operand(Kind::False, d),
+                    _ => self.operand(Kind::True, d),
+                };
+                let r = if self.rng.coin() { self.operand(Kind::False, d) } else { self.operand(Kind::True, d) };
                 Sh::Bin(op, Box::new(l), Box::new(r))
             }
             2 => {
@@ -701,6 +726,7 @@ impl ShEmit {
     fn ast(&mut self, s: &Sh) -> AST {
         match s {
             Sh::T(k, kind) => tracer(*k, *kind),
+            Sh::Lit(b) => AST::Boolean(*b),
             Sh::Bin(op, l, r) => AST::call_method(self.ast(l), idn(op), vec![self.ast(r)]),
             Sh::Call(a) => AST::call_function(idn(&format!("id{}", a.len())), a.iter().map(|x| self.ast(x)).collect()),
             Sh::Method(o, a) => AST::call_method(self.ast(o), idn(&format!("m{}", a.len())), a.iter().map(|x| self.ast(x)).collect()),
@@ -748,6 +774,7 @@ impl ShEmit {
 fn predict(s: &Sh, out: &mut Vec<String>, loops: &mut usize) {
     match s {
         Sh::T(k, _) => out.push(format!("<{}>", k)),
+        Sh::Lit(_) => {}
         Sh::Bin(_, l, r) => {
             predict(l, out, loops);
             predict(r, out, loops);
@@ -773,7 +800,9 @@ fn predict(s: &Sh, out: &mut Vec<String>, loops: &mut usize) {
         Sh::ArrayCompound(n, i) => {
             // size once and first, then the initializer once per element (size tracers yield 2)
             predict(n, out, loops);
-            for _ in 0..2 {
+            // a field access is a *simple* initializer (DESIGN.md §1): evaluated exactly once
+            let times = if let Sh::FieldGet(_) = **i { 1 } else { 2 };
+            for _ in 0..times {
                 predict(i, out, loops);
             }
         }
@@ -817,7 +846,7 @@ fn predict(s: &Sh, out: &mut Vec<String>, loops: &mut usize) {
 /// contexts (array initializers, loop bodies).
 fn has_nested_loop(s: &Sh, repeated: bool) -> bool {
     match s {
-        Sh::T(..) => false,
+        Sh::T(..) | Sh::Lit(_) => false,
         Sh::Loop(b) => repeated || has_nested_loop(b, true),
         Sh::ArrayCompound(n, i) => has_nested_loop(n, repeated) || has_nested_loop(i, true),
         Sh::Bin(_, l, r) => has_nested_loop(l, repeated) || has_nested_loop(r, repeated),
